@@ -231,8 +231,12 @@ def run_check(prop, tier, base_seed, runs_override=None, workers=None):
                 # seen by a worker and again in this process, but not in 6 fresh interpreters: still a violation of
                 # the code under test (its result varies between executions); the replay file is probabilistic
                 out_lines.append(f'  note: {path} reproduces only with some probability (result of the code under test varies between executions)')
-        elif fr['violation'] is None or fr['violation']['clause'] != r1.violation.clause or fr['digest'] != r1.log.digest():
-            raise core.HarnessError(f'replay {path} did not reproduce identically in a fresh interpreter: {fr}')
+        elif fr['violation'] is not None and fr['violation']['clause'] == r1.violation.clause and fr['digest'] != r1.log.digest():
+            # same violation, different event log: what the code under test computes varies between executions
+            out_lines.append(f'  note: {path} fails with the same clause in a fresh interpreter but with a different event log '
+                             '(result of the code under test varies between executions)')
+        elif fr['violation'] is None or fr['violation']['clause'] != r1.violation.clause:
+            raise core.HarnessError(f'replay {path} did not reproduce in a fresh interpreter: {fr}')
         out_lines.append(f'VIOLATION property={prop} replay={path}')
         out_lines.append(f'  {msig}: {r1.violation.detail}')
         violations += 1
